@@ -8,6 +8,7 @@ from typing import Dict, List, Optional
 
 from ..core import clone, Unrecognised, Slot, call_name, calls_in, dotted, facts, module_of, parent, qual, site, src, template, walk_local
 from ..formulas import LANG, PropError, SPEC_TABLES, truth_table
+from ..memo import check_memo_keys
 
 EXPLANATION = (
     "Static necessary conditions for C08 over ISLaEmitter in src/isla/language.py: decided: (D1) the derived connectives implies / iff / xor are "
@@ -216,7 +217,53 @@ def rule_d5(ctx):
     ctx.inventory["nth_occ"] = src(no)[:300]
 
 
+def rule_d6(ctx):
+    """(a) push-in keeps the connective of the formulas it re-groups; (b) groupby over XPath expressions sees them sorted by the grouping key; (c) memo keys."""
+    f = ctx.repo.func(LANG, "univ_close_over_var_push_in", "C08.D6")
+    c = f"{LANG}:univ_close_over_var_push_in"
+    rec = [x for x in calls_in(f) if call_name(x) == "univ_close_over_var_push_in" and x.args and "other_formulas" in src(x.args[0])]
+    if len(rec) != 1:
+        raise Unrecognised("C08.D6", c, "recursion over the re-grouped `other_formulas` not found")
+    a0 = " ".join(src(rec[0].args[0]).split())
+    good = "type(formula)(*other_formulas) if len(other_formulas) > 1 else other_formulas[0]"
+    if a0 == good:
+        ctx.ok("D6-regroup-connective", c, "re-grouped sub-formulas keep the original connective", site(rec[0]), "type(formula)(*other_formulas)")
+    elif any(k in a0 for k in ("__and__", "__or__", "ConjunctiveFormula", "DisjunctiveFormula", " & ", " | ")):
+        ctx.viol("D6-regroup-connective", c, "re-grouped sub-formulas keep the original connective", site(rec[0]),
+                 f"the sub-formulas that stay under one new quantifier are recombined with a fixed connective (`{a0}`) although `formula` may be a conjunction or a disjunction: "
+                 "closing over `A or B or C` (C independent) turns `A or B` into `A and B` under the quantifier")
+    else:
+        raise Unrecognised("C08.D6", c, f"re-grouping expression `{a0}` not recognised")
+    g = ctx.repo.func(LANG, "ISLaEmitter.close_over_free_nonterminals", "C08.D6")
+    c2 = f"{LANG}:ISLaEmitter.close_over_free_nonterminals"
+    gbs = [x for x in calls_in(g) if call_name(x) == "itertools.groupby"]
+    if len(gbs) != 1 or len(gbs[0].args) != 2:
+        raise Unrecognised("C08.D6", c2, "itertools.groupby(sorted(...), key) not found")
+    data, gkey = gbs[0].args
+    if not (isinstance(gkey, ast.Lambda) and isinstance(data, ast.Call) and call_name(data) == "sorted"):
+        raise Unrecognised("C08.D6", c2, "groupby arguments not in the recognised shape")
+    gp = gkey.args.args[0].arg
+    gexpr = src(gkey.body)
+    skey = next((k.value for k in data.keywords if k.arg == "key"), None)
+    if skey is None:
+        # natural tuple order: the grouping key must be the most significant component (all indices 0)
+        import re as _re
+
+        ok = _re.fullmatch(rf"{gp}(\[0\])+", gexpr) is not None
+        ctx.check(ok, "D6-groupby-sorted", c2, f"groupby key {gexpr} is the primary sort component", site(gbs[0]), f"data sorted in natural order but grouped by {gexpr}", "sorted by the grouping key")
+    else:
+        sp = skey.args.args[0].arg if isinstance(skey, ast.Lambda) else None
+        first = skey.body.elts[0] if isinstance(skey, ast.Lambda) and isinstance(skey.body, ast.Tuple) and skey.body.elts else (skey.body if isinstance(skey, ast.Lambda) else None)
+        ok = first is not None and src(first).replace(sp or "", "P", 1) == gexpr.replace(gp, "P", 1)
+        ctx.check(ok, "D6-groupby-sorted", c2, f"groupby key {gexpr} is the primary sort component", site(gbs[0]),
+                  f"itertools.groupby only merges ADJACENT elements, but the data is sorted by `{src(skey.body) if isinstance(skey, ast.Lambda) else src(skey)}` whose most significant component is not the grouping key `{gexpr}`: "
+                  "XPath expressions with the same head nonterminal end up in several groups and that nonterminal is closed by several independent quantifiers", "sorted by the grouping key")
+    n = check_memo_keys(ctx, "D6-memo-key", [LANG])
+    ctx.inventory["memo_sites_language"] = n
+
+
 def run(ctx) -> str:
+    ctx.guarded("D6", lambda: rule_d6(ctx))
     ctx.guarded("D1", lambda: rule_d1(ctx))
     ctx.guarded("D2", lambda: rule_d2(ctx))
     ctx.guarded("D3", lambda: rule_d3(ctx))
